@@ -38,6 +38,9 @@ func init() {
 			"a fault delivered after the decoder already holds a complete document may be ignored by JSON/XML/YAML consumers: only 'nil error with a value different from the full one' is a shorter success",
 			"struct and slice sources of the byte-stream and text producers: the bytes written must be JSON that decodes to an equal value (only for valid UTF-8 text)",
 			"short writes without error (a violation of io.Writer's contract) are not scripted",
+			"a stream (or closable source payload) that is read or written after the codec closed it is a violation whatever the outcome: scripted streams fail once closed, as files and HTTP bodies do",
+			"the byte-stream and text consumers are also driven from a reader without Close and from *bytes.Buffer / *bytes.Reader / *strings.Reader; what they stored must survive the caller overwriting its source buffer, and what a producer wrote must survive the caller overwriting its []byte source",
+			"the known YAML finding covers the affected text pieces only: a case that shows it is judged a second time with those pieces made harmless and everything else unchanged",
 		},
 		MinNontrivial: 300,
 		Run:           run,
@@ -67,7 +70,13 @@ type Case struct {
 	DBuf int    `json:"dbuf,omitempty"`
 	// Warm: number of earlier Consume calls made on the SAME codec instance (other content, other
 	// destination of the same kind) before the judged call; their results must survive it.
+	// (produce: earlier Produce calls on the same producer instance into other writers, whose output must
+	// survive it; roundtrip: one earlier produce-and-consume on the same producer and consumer instances).
 	Warm int `json:"warm,omitempty"`
+	// RK: the reader handed to the byte-stream / text Consume. "" = the scripted io.ReadCloser; "plain" =
+	// the scripted reader without Close; "bytes.Buffer" / "bytes.Reader" / "strings.Reader" = the concrete
+	// standard types (the script R does not apply to them; there is nothing the closing option could close).
+	RK string `json:"rk,omitempty"`
 }
 
 func (c *Case) content() []byte {
@@ -177,7 +186,7 @@ func (c *Case) fp(dir string) string {
 	if len(c.Pre) > 0 {
 		pre = "pre"
 	}
-	return strings.Join([]string{c.Codec, dir, c.Kind, pre, c.R.class(n), c.W.class(n), c.O.class(n), fmt.Sprint(c.Close), fmt.Sprint(c.Warm)}, "|")
+	return strings.Join([]string{c.Codec, dir, c.Kind, pre, c.R.class(n), c.W.class(n), c.O.class(n), fmt.Sprint(c.Close), fmt.Sprint(c.Warm), c.RK}, "|")
 }
 
 func maxInt(a, b int) int {
@@ -205,6 +214,38 @@ func closeRules(m *mon.M, c *Case, side string, closes, touches int) {
 	if closes > 0 {
 		m.Class("stream-closed")
 	}
+}
+
+// usedAfterClose raises a stream that was read or written after the codec had closed it: a file or an
+// HTTP body fails from then on, so bytes are lost whatever the scripted stream was still willing to give.
+func usedAfterClose(m *mon.M, c *Case, side string, n int, err error) bool {
+	if n == 0 {
+		return false
+	}
+	m.Violate("used-after-close/"+c.Codec+"/"+side, fmt.Sprintf("%s %s (%s): the %s was used %d time(s) after the codec had closed it (err=%v)", c.Codec, c.Dir, c.Kind, side, n, err), c)
+	return true
+}
+
+// consumeReader builds the reader handed to Consume. sr carries the counters of the scripted kinds (a
+// blank one for the concrete standard readers); src is the memory a *bytes.Buffer / *bytes.Reader reads from.
+func consumeReader(c *Case, data []byte) (rd io.Reader, sr *sReader, src []byte, ok bool) {
+	switch c.RK {
+	case "":
+		sr = newReader(data, c.R)
+		return sr, sr, nil, true
+	case "plain":
+		sr = newReader(data, c.R)
+		return readerOnly{sr}, sr, nil, true
+	case "bytes.Buffer":
+		src = append([]byte{}, data...)
+		return bytes.NewBuffer(src), &sReader{}, src, true
+	case "bytes.Reader":
+		src = append([]byte{}, data...)
+		return bytes.NewReader(src), &sReader{}, src, true
+	case "strings.Reader":
+		return strings.NewReader(string(data)), &sReader{}, nil, true
+	}
+	return nil, nil, nil, false
 }
 
 func runCase(m *mon.M, c *Case) {
@@ -242,7 +283,11 @@ func runByteConsume(m *mon.M, c *Case) {
 		m.Violate("bad-replay-case", "unknown destination kind "+c.Kind, c)
 		return
 	}
-	r := newReader(data, c.R)
+	rd, r, src, ok := consumeReader(c, data)
+	if !ok {
+		m.Violate("bad-replay-case", "unknown reader kind "+c.RK, c)
+		return
+	}
 	cons := consumerOf(c)
 	// earlier calls on the same instance: their stored results must not be touched by later calls
 	type earlier struct {
@@ -263,7 +308,7 @@ func runByteConsume(m *mon.M, c *Case) {
 		warm = append(warm, earlier{wd, wdata})
 	}
 	var err error
-	pv, st := mon.Catch(func() { err = cons.Consume(r, d.v) })
+	pv, st := mon.Catch(func() { err = cons.Consume(rd, d.v) })
 	for i, w := range warm {
 		if w.d.get != nil && !bytes.Equal(w.d.get(), w.want) {
 			m.Violate("earlier-result-altered-by-later-call/"+c.Codec, fmt.Sprintf("%s Consume into %s: the value stored by call #%d (%s) reads %s after a later call on the same consumer stored %s", c.Codec, c.Kind, i+1, short(w.want), short(w.d.get()), short(data)), c)
@@ -280,9 +325,13 @@ func runByteConsume(m *mon.M, c *Case) {
 		m.Violate("consume-panic/"+c.Codec+"/"+kindClass(c.Kind), fmt.Sprintf("%s Consume into %s (%T) panicked: %v\n%s", c.Codec, c.Kind, d.v, pv, st), c)
 		return
 	}
-	closeRules(m, c, "reader", r.closes, r.reads)
-	if r.readsAfterClose > 0 {
-		m.Class("read-after-close")
+	if c.RK == "" {
+		closeRules(m, c, "reader", r.closes, r.reads)
+	} else {
+		m.Class(c.Codec + "/consume/reader=" + c.RK)
+	}
+	if usedAfterClose(m, c, "reader", r.readsAfterClose, err) {
+		return
 	}
 	destFault := d.sink != nil && d.sink.errDelivered
 	if r.errDelivered || destFault {
@@ -308,6 +357,18 @@ func runByteConsume(m *mon.M, c *Case) {
 				pre = "/pre-populated"
 			}
 			m.Violate("stored-mismatch/"+c.Codec+"/"+mismatchMode(got, data)+pre, fmt.Sprintf("%s Consume into %s: read %s, stored %s (script %s)", c.Codec, c.Kind, short(data), short(got), c.R.class(len(data))), c)
+			return
+		}
+		if src != nil && len(src) > 0 {
+			// what was stored must not share memory with the caller's source buffer
+			for i := range src {
+				src[i] ^= 0xFF
+			}
+			if again := get(d); !bytes.Equal(again, data) {
+				m.Violate("stored-aliases-source/"+c.Codec+"/"+c.RK, fmt.Sprintf("%s Consume from a *%s into %s: stored %s; after the source buffer was overwritten the destination reads %s", c.Codec, c.RK, c.Kind, short(data), short(again)), c)
+				return
+			}
+			m.Class("source-overwritten-destination-intact")
 		}
 		m.Class("stored-ok")
 		return
@@ -346,8 +407,40 @@ func runByteProduce(m *mon.M, c *Case) {
 	}
 	w := newWriter(c.W)
 	prod := producerOf(c)
+	// earlier calls on the same instance: what they wrote into their own writers must not be touched by later calls
+	type earlierW struct {
+		w      *sWriter
+		wrote  []byte
+		writes int
+	}
+	var warm []earlierW
+	for i := 0; i < c.Warm; i++ {
+		wdata := append([]byte(fmt.Sprintf("earlier-call-%d:", i)), bytes.ToUpper(data)...)
+		ws, ok := mkSource(c.Kind, wdata, Script{})
+		if !ok {
+			break
+		}
+		ww := newWriter(Script{})
+		var werr error
+		if pv, _ := mon.Catch(func() { werr = prod.Produce(ww, ws.v) }); pv != nil || werr != nil {
+			break
+		}
+		if ws.byteSrc && !bytes.Equal(ww.buf, wdata) {
+			break // judged by the case that has this content as its own
+		}
+		warm = append(warm, earlierW{ww, append([]byte(nil), ww.buf...), ww.writes})
+	}
 	var err error
 	pv, st := mon.Catch(func() { err = prod.Produce(w, s.v) })
+	for i, e := range warm {
+		if !bytes.Equal(e.w.buf, e.wrote) || e.w.writes != e.writes {
+			m.Violate("earlier-output-altered-by-later-call/"+c.Codec, fmt.Sprintf("%s Produce from %s: the writer of call #%d held %s after %d writes; after a later call on the same producer (source %s) it holds %s after %d writes", c.Codec, c.Kind, i+1, short(e.wrote), e.writes, short(data), short(e.w.buf), e.w.writes), c)
+			return
+		}
+	}
+	if len(warm) > 0 {
+		m.Class("producer-instance-reused")
+	}
 	m.NT(c.fp("produce"))
 	m.Class(c.Codec + "/produce/" + c.Kind)
 	m.Class("content/" + contentClass(data))
@@ -358,6 +451,12 @@ func runByteProduce(m *mon.M, c *Case) {
 	closeRules(m, c, "writer", w.closes, w.writes)
 	if s.closer != nil && s.closer.closes == 0 {
 		m.Violate("source-payload-not-closed/"+c.Codec, fmt.Sprintf("%s Produce from %s: the io.ReadCloser payload was not closed (err=%v)", c.Codec, c.Kind, err), c)
+	}
+	if usedAfterClose(m, c, "writer", w.writesAfterClose, err) {
+		return
+	}
+	if s.closer != nil && usedAfterClose(m, c, "source-payload", s.closer.readsAfterClose, err) {
+		return
 	}
 	srcFault := c.O.Fault && ((s.rd != nil && s.rd.errDelivered) || (s.wt != nil && s.wt.calls > 0))
 	if w.errDelivered || srcFault {
@@ -378,6 +477,19 @@ func runByteProduce(m *mon.M, c *Case) {
 	if s.byteSrc {
 		if !bytes.Equal(w.buf, data) {
 			m.Violate("written-mismatch/"+c.Codec+"/"+mismatchMode(w.buf, data), fmt.Sprintf("%s Produce from %s: source %s, written %s", c.Codec, c.Kind, short(data), short(w.buf)), c)
+			return
+		}
+		if len(s.raw) > 0 {
+			// what was written must not depend on the caller's slice any more once Produce has returned
+			writes := w.writes
+			for i := range s.raw {
+				s.raw[i] ^= 0xFF
+			}
+			if !bytes.Equal(w.buf, data) || w.writes != writes {
+				m.Violate("written-aliases-source/"+c.Codec, fmt.Sprintf("%s Produce from %s: written %s; after the source slice was overwritten the writer holds %s (%d more writes)", c.Codec, c.Kind, short(data), short(w.buf), w.writes-writes), c)
+				return
+			}
+			m.Class("source-overwritten-output-intact")
 		}
 		m.Class("written-ok")
 		return
@@ -417,13 +529,46 @@ func runRoundTrip(m *mon.M, c *Case) {
 	m.NT(c.fp("roundtrip"))
 	m.Class(c.Codec + "/roundtrip/" + c.Kind)
 	w := newWriter(c.W)
+	prod, cons := producerOf(c), consumerOf(c)
+	// an earlier round trip on the same producer and consumer instances: what it delivered must survive the judged one
+	var v0, dst0 interface{}
+	warmOK := false
+	if c.Warm > 0 {
+		c0 := *c
+		c0.Content, c0.Rep, c0.Num = "earlier,call on the same,instances", 0, "7"
+		var ok0 bool
+		if v0, dst0, ok0 = buildValue(&c0); ok0 {
+			w0 := newWriter(Script{})
+			var e1, e2 error
+			pv0, _ := mon.Catch(func() {
+				if e1 = prod.Produce(w0, v0); e1 == nil {
+					e2 = cons.Consume(newReader(w0.buf, Script{}), dst0)
+				}
+			})
+			warmOK = pv0 == nil && e1 == nil && e2 == nil && reflect.DeepEqual(reflect.ValueOf(dst0).Elem().Interface(), v0)
+		}
+	}
+	earlierIntact := func() bool {
+		if !warmOK {
+			return true
+		}
+		m.Class("codec-instances-reused")
+		if got0 := reflect.ValueOf(dst0).Elem().Interface(); !reflect.DeepEqual(got0, v0) {
+			m.Violate("earlier-result-altered-by-later-call/"+c.Codec, fmt.Sprintf("%s round trip of %s: the value an earlier round trip on the same producer and consumer delivered was %#v; after the judged round trip it reads %#v", c.Codec, c.Kind, v0, got0), c)
+			return false
+		}
+		return true
+	}
 	var err error
-	pv, st := mon.Catch(func() { err = producerOf(c).Produce(w, v) })
+	pv, st := mon.Catch(func() { err = prod.Produce(w, v) })
 	if pv != nil {
 		m.Violate("produce-panic/"+c.Codec+"/supported-value", fmt.Sprintf("%s Produce of %s panicked: %v\n%s", c.Codec, c.Kind, pv, st), c)
 		return
 	}
 	closeRules(m, c, "writer", w.closes, w.writes)
+	if usedAfterClose(m, c, "writer", w.writesAfterClose, err) {
+		return
+	}
 	if w.errDelivered {
 		m.Class("fault-delivered")
 		if err == nil {
@@ -437,12 +582,18 @@ func runRoundTrip(m *mon.M, c *Case) {
 	}
 	m.Note("encoded_bytes", int64(len(w.buf)))
 	r := newReader(w.buf, c.R)
-	pv, st = mon.Catch(func() { err = consumerOf(c).Consume(r, dst) })
+	pv, st = mon.Catch(func() { err = cons.Consume(r, dst) })
 	if pv != nil {
 		m.Violate("consume-panic/"+c.Codec+"/own-output", fmt.Sprintf("%s Consume of its own output for %s panicked: %v\n%s", c.Codec, c.Kind, pv, st), c)
 		return
 	}
 	closeRules(m, c, "reader", r.closes, r.reads)
+	if usedAfterClose(m, c, "reader", r.readsAfterClose, err) {
+		return
+	}
+	if !earlierIntact() {
+		return
+	}
 	got := reflect.ValueOf(dst).Elem().Interface()
 	equal := reflect.DeepEqual(got, v)
 	if r.errDelivered {
@@ -457,6 +608,14 @@ func runRoundTrip(m *mon.M, c *Case) {
 	if (err != nil || !equal) && yamlBlockScalarFeature(c) {
 		// one failure mode of the YAML library's emitter, whatever the kind that carries the text
 		m.Violate("roundtrip-broken/yaml/multiline-text-with-leading-blank", fmt.Sprintf("yaml round trip of %s: a multi-line text starting with a blank or a line break is written as a block scalar the consumer misreads (err=%v)\nproduced %s\n got  %#v\n want %#v", c.Kind, err, short(w.buf), got, v), c)
+		// the known finding accounts for the affected text pieces only: the same value with those pieces made
+		// harmless (everything else - numbers, booleans, maps, the other pieces, the scripts - unchanged) is
+		// judged on its own, so that any other failure on this input still surfaces under its own signature
+		if c2, ok := yamlWithoutBlockScalarFeature(c); ok {
+			m.Class("yaml-known-feature/rejudged-without-the-affected-text")
+			m.Eval(1)
+			runRoundTrip(m, c2)
+		}
 		return
 	}
 	if err != nil {
@@ -512,6 +671,32 @@ func yamlBlockScalarFeature(c *Case) bool {
 	return false
 }
 
+const yamlBlanks = " \t\n\r\u0085\u2028\u2029"
+
+// yamlWithoutBlockScalarFeature returns the case with every affected text piece (and the text as a whole)
+// deprived of its leading blanks and line breaks; nothing else changes.
+func yamlWithoutBlockScalarFeature(c *Case) (*Case, bool) {
+	affected := func(p string) bool {
+		return p != "" && strings.ContainsAny(p, "\n\r\u0085\u2028\u2029") && strings.ContainsRune(yamlBlanks, []rune(p)[0])
+	}
+	ps := pieces(string(c.content()))
+	for i, p := range ps {
+		if affected(p) {
+			ps[i] = "x" + strings.TrimLeft(p, yamlBlanks)
+		}
+	}
+	s := strings.Join(ps, ",")
+	if affected(s) {
+		s = "x" + strings.TrimLeft(s, yamlBlanks)
+	}
+	c2 := *c
+	c2.Content, c2.Rep = mon.Q(s), 0
+	if yamlBlockScalarFeature(&c2) {
+		return nil, false
+	}
+	return &c2, true
+}
+
 // ---- structured consumers: totality over destinations ----
 
 func runStructConsume(m *mon.M, c *Case) {
@@ -531,6 +716,9 @@ func runStructConsume(m *mon.M, c *Case) {
 		return
 	}
 	closeRules(m, c, "reader", r.closes, r.reads)
+	if usedAfterClose(m, c, "reader", r.readsAfterClose, err) {
+		return
+	}
 	if mustErr && err == nil && len(bytes.TrimSpace(data)) > 0 {
 		m.Violate("silent-success/"+c.Codec+"/"+kindClass(c.Kind), fmt.Sprintf("%s Consume of %s into %s (%T) returned nil", c.Codec, short(data), c.Kind, v), c)
 		return
